@@ -211,7 +211,7 @@ def check_property(pid, tier="quick", seed=0, update_expected=False, jobs=None, 
         with open(os.path.join(VERIF, "expected_obligations.json"), "w") as f:
             json.dump(expected_all, f, indent=1, sort_keys=True)
         expected = names
-    missing = sorted(n for n in expected - names if n.split("/", 1)[0] not in degraded)
+    missing = sorted(n for n in expected - names if n.split("/", 1)[0] not in degraded and not (tier == "thorough" and "skipped-in-quick-tier" in n))
     if missing and status < 2 and not only_units:
         status = 2
         msgs.append(f"UNDECIDED property={pid}: expected obligations no longer generated: {missing[:8]}")
